@@ -10,7 +10,7 @@ from ..poly import Poly, known_le, same
 def check(an, rep, tier):
     prog = an.prog
     rep.explanation = decided_split(
-        'O-producer for every pivot k (d = 2,3(,4)): the cores left of k are '
+        'O-producer for every pivot k (d = 2,3(,4,5)): the cores left of k are '
         'the reshaped Q of a reduced QR of the left unfolding (orthonormal '
         'columns), the cores right of k the reshaped Q of an economic RQ '
         '(orthonormal rows), the pivot core carries the weights; the '
@@ -26,7 +26,7 @@ def check(an, rep, tier):
     rep.assumptions = pre('PRE-TT', 'PRE-D', 'PRE-DOC')
     rep.trusted = ['orthogonality axioms of numpy.linalg.qr (reduced) and '
                    'scipy.linalg.rq (economic)']
-    ds = (2, 3) if tier == 'quick' else (2, 3, 4)
+    ds = (2, 3) if tier == 'quick' else (2, 3, 4, 5)
     wh = {'utils._reshape', 'transformation.orthogonalize', 'transformation.orthogonalize_left',
           'transformation.orthogonalize_right'}
     for d in ds:
@@ -134,11 +134,12 @@ def check(an, rep, tier):
             v = dict(Y='tt', k=('lit', k), use_stab=('lit', True))
             r = an.run('transformation.orthogonalize', 0, d, variant=v,
                        extra_key=('stab', k))
+            L.check_stab_calls(rep, r, 'transformation.orthogonalize',
+                               'pivot %d at d=%d' % (k, d), d - 1)
             for j, rv in enumerate(r.returns):
                 L.check_pair(rep, 'transformation.orthogonalize',
                              '(Z, p) for pivot %d at d=%d' % (k, d),
                              rv.items[0], rv.items[1])
-    L.check_stab_per_step(prog, rep)
     from .. import rules_proto as _RPZ
     _RPZ.check_none_vs_zero(prog, rep, modules={'transformation'})
     rep.floor('O-producer', 5, 'pivot typestates')
